@@ -68,7 +68,8 @@ def parseGlyphObs (s : String) : Option GlyphObs :=
 
 def parseLayerObs (tok : String) : Option LayerObs :=
   match tok.splitOn ":" with
-  | ["D", n, d, len, gs] =>
+  | [t, n, d, len, gs] =>
+    if t ≠ "D" && t ≠ "E" then none else
     match unhexStr n, unhexStr d, len.toNat?, (splitOnC gs ";").mapM parseGlyphObs with
     | some n', some d', some l, some gs' => some ⟨n', d', l, gs'⟩
     | _, _, _, _ => none
@@ -166,6 +167,78 @@ def shuffle (x : Nat) (l : List Entry) : List Entry :=
       | none => acc ++ l
   go l.length x l []
 
+/-! ### histories through the public API between load and save (layer.rs:517-567, `Layer::entry`)
+
+The two indices of a layer: the glyph map and `contents` (glyph name ↦ file).  File names given out by
+`insert_glyph` come from the C07 algorithm and are not predicted here (`none`); `entry(..).or_insert(..)`
+touches the glyph map only (recorded C06 finding: such a glyph is not saved — by either build). -/
+
+inductive ApiOp
+  | ins (li : Nat) (n : Str) (seed : Nat)
+  | rem (li : Nat) (n : Str)
+  | ren (li : Nat) (o n : Str)
+  | entry (li : Nat) (n : Str) (seed : Nat)
+
+def parseOp (t : String) : Option ApiOp :=
+  match t.splitOn "." with
+  | ["ig", li, n, sd] => match li.toNat?, unhexStr n, sd.toNat? with
+    | some l, some n', some s' => some (.ins l n' s') | _, _, _ => none
+  | ["rg", li, n] => match li.toNat?, unhexStr n with
+    | some l, some n' => some (.rem l n') | _, _ => none
+  | ["mg", li, o, n] => match li.toNat?, unhexStr o, unhexStr n with
+    | some l, some o', some n' => some (.ren l o' n') | _, _, _ => none
+  | ["eo", li, n, sd] => match li.toNat?, unhexStr n, sd.toNat? with
+    | some l, some n', some s' => some (.entry l n' s') | _, _, _ => none
+  | _ => none
+
+structure LState where
+  glyphs : List (Str × View)
+  contents : List (Str × Option Str)
+
+def LState.insert (L : LState) (v : View) : LState :=
+  { glyphs := L.glyphs.filter (·.1 ≠ v.name) ++ [(v.name, v)],
+    contents := if L.contents.any (·.1 = v.name) then L.contents else L.contents ++ [(v.name, none)] }
+
+def LState.remove (L : LState) (n : Str) : LState :=
+  { glyphs := L.glyphs.filter (·.1 ≠ n), contents := L.contents.filter (·.1 ≠ n) }
+
+def LState.apply (L : LState) : ApiOp → LState
+  | .ins _ n seed => L.insert ⟨n, [], seed⟩
+  | .rem _ n => L.remove n
+  | .ren _ o n =>
+    if L.glyphs.any (·.1 = n) then L else
+    match L.glyphs.find? (·.1 = o) with
+    | none => L
+    | some g => (L.remove o).insert { g.2 with name := n }
+  | .entry _ n seed =>
+    if L.glyphs.any (·.1 = n) then L else { L with glyphs := L.glyphs ++ [(n, ⟨n, [], seed⟩)] }
+
+def ApiOp.layer : ApiOp → Nat
+  | .ins l _ _ | .rem l _ | .ren l _ _ | .entry l _ _ => l
+
+def applyOps (ls : List LState) (ops : List ApiOp) : List LState :=
+  ops.foldl (fun ls op => ls.zipIdx.map (fun p => if p.2 = op.layer then p.1.apply op else p.1)) ls
+
+def sortViews (l : List (Str × View)) : List (Str × View) := l.mergeSort (fun a b => !lexLt b.1 a.1)
+def sortNames (l : List Str) : List Str := l.mergeSort (fun a b => !lexLt b a)
+
+/-- dump after the history: the glyph map in key order -/
+def stateMatchesDump (L : LState) (o : LayerObs) : Bool :=
+  let gs := sortViews L.glyphs
+  o.len = gs.length && o.glyphs.length = gs.length &&
+  (gs.zip o.glyphs).all (fun p => p.2.name = p.1.2.name && p.2.comps = p.1.2.comps &&
+    p.2.body = toString p.1.2.body && p.2.found && p.1.1 = p.1.2.name)
+
+/-- saved files after the history: one per `contents` entry; known file names hold their glyph, the
+    others hold exactly the glyphs whose file name `insert_glyph` chose -/
+def stateMatchesSave (L : LState) (o : SaveObs) : Bool :=
+  let known := L.contents.filterMap (fun e => e.2.map (fun f => (f, e.1)))
+  let unknownKeys := (L.contents.filter (·.2.isNone)).map (·.1)
+  let rest := o.files.filter (fun p => !known.any (·.1 = p.1))
+  o.files.length = L.contents.length &&
+  known.all (fun k => o.files.any (fun p => p.1 = k.1 && p.2 = some k.2)) &&
+  sortNames (rest.filterMap (·.2)) = sortNames unknownKeys && rest.all (·.2.isSome)
+
 /-! ### comparison with the sequential observation -/
 
 def glyphMatches (m : LayerMap) (f : FileIn) (g : GlyphObs) : Bool :=
@@ -192,6 +265,11 @@ def loadFeatures (seq par : List LayerObs) : List String :=
   (if pairs.any (fun p => p.1.glyphs.map (·.found) ≠ p.2.glyphs.map (·.found)) then ["key-name"] else []) ++
   (if pairs.any (fun p => p.1.glyphs.map (·.comps) ≠ p.2.glyphs.map (·.comps)) then ["components"] else []) ++
   (if pairs.any (fun p => p.1.glyphs.map (·.body) ≠ p.2.glyphs.map (·.body)) then ["body"] else [])
+
+def defaultDir : Str := "glyphs".toList
+/-- the two names with equal `DefaultHasher::new()` value (see harness `COLL`) -/
+def collA : Str := "g711c6db79da05b78".toList
+def collB : Str := "gdde3a1201b0b8338".toList
 
 def bucket (n : Nat) : String :=
   if n < 16 then "lt16" else if n < 128 then "lt128" else if n < 512 then "lt512" else "ge512"
@@ -229,26 +307,49 @@ def run (inp obs : List String) : Verdict :=
     -- implementation: sequential observation
     let status := obs.head?.getD "?"
     let dumps := (obs.filter (·.startsWith "D:")).mapM parseLayerObs
+    let edumps := (obs.filter (·.startsWith "E:")).mapM parseLayerObs
+    let ops : Option (List ApiOp) :=
+      match inp.find? (·.startsWith "O:") with
+      | none => some []
+      | some t => (splitOnC ((t.drop 2).toString) ";").mapM parseOp
     let saves := (obs.filter (·.startsWith "S:")).mapM parseSaveObs
     let seqAgree : Bool × String :=
       if status = "Qerr" then (!modelOk, "impl-load-failed")
       else if status ≠ "Qok" then (false, "impl-status:" ++ status)
       else if !modelOk then (false, "model-load-fails")
-      else match dumps, saves with
-        | some ds, some ss =>
-          let bad := ((layers.zip seqMaps).zip seqDirs).filterMap fun p =>
+      else match dumps, saves, edumps, ops with
+        | some ds, some ss, some es, some ops =>
+          -- the layer states after the history (glyph map and contents index), from the model's load
+          let states0 : List LState := (layers.zip seqMaps).map fun p =>
+            { glyphs := p.1.files.filterMap (fun f => (p.2.bind (fun m => m f.file.key)).map (fun v => (f.file.key, v))),
+              contents := p.1.files.map (fun f => (f.file.key, some f.fname)) }
+          let states := applyOps states0 ops
+          let bad := (((layers.zip seqMaps).zip seqDirs).zip states).filterMap fun q =>
+            let p := q.1
             let li := p.1.1
             match p.1.2, ds.find? (·.name = li.name), ss.find? (·.dir = li.dir) with
             | some m, some o, some s =>
               if !layerMatches li m o then some ("load:" ++ String.ofList li.name)
-              else if !saveMatches li p.2 s then some ("save:" ++ String.ofList li.name) else none
+              else if ops.isEmpty then
+                (if !saveMatches li p.2 s then some ("save:" ++ String.ofList li.name) else none)
+              else match es.find? (·.name = li.name) with
+                | none => some ("missing-after-history:" ++ String.ofList li.name)
+                | some e =>
+                  if !stateMatchesDump q.2 e then some ("after-history:" ++ String.ofList li.name)
+                  else if !stateMatchesSave q.2 s then some ("save-after-history:" ++ String.ofList li.name)
+                  else none
             | _, _, _ => some ("missing:" ++ String.ofList li.name)
+          -- layer.rs:90-96: the default layer first, the others in layercontents order
+          let order := (layers.filter (·.dir = defaultDir)).map (·.name) ++ (layers.filter (·.dir ≠ defaultDir)).map (·.name)
           if ds.length ≠ layers.length then (false, "layer-count")
+          else if ds.map (·.name) ≠ order || (!ops.isEmpty && es.map (·.name) ≠ order) then (false, "layer-order")
+          else if obs.contains "E-panic" then (false, "history-panicked")
           else (bad.isEmpty, ",".intercalate bad)
-        | _, _ => (false, "unparsable-observation")
+        | _, _, _, _ => (false, "unparsable-observation")
     -- specification oracle: the parallel build against the sequential build (observation only)
     let pools := (obs.filter (fun t => t.startsWith "P" && !t.startsWith "P-")).filterMap parsePool
     let xd := (obs.filter (·.startsWith "XD:")).mapM (fun t => parseLayerObs ((t.drop 1).toString))
+    let xe := (obs.filter (·.startsWith "XE:")).mapM (fun t => parseLayerObs ((t.drop 1).toString))
     let xq := (obs.find? (·.startsWith "XQ")).map (fun t => (t.drop 1).toString)
     let loadBad := pools.any (fun p => p.reps < reps || p.reps = 0 || p.dumpsEq ≠ p.reps)
     let saveBad := pools.any (fun p => p.listEq ≠ p.saves || p.hashEq ≠ p.saves)
@@ -258,9 +359,12 @@ def run (inp obs : List String) : Verdict :=
       | none => ["unclassified"]
       | some q =>
         if q ≠ status then ["status"] else
-        match dumps, xd with
-        | some ds, some xs => let f := loadFeatures ds xs; if f.isEmpty then ["unclassified"] else f
-        | _, _ => ["unclassified"]
+        match dumps, xd, edumps, xe with
+        | some ds, some xs, some es, some xes =>
+          let f := loadFeatures ds xs
+          let f := if f.isEmpty then (loadFeatures es xes).map (fun x => x ++ "-after-history") else f
+          if f.isEmpty then ["unclassified"] else f
+        | _, _, _, _ => ["unclassified"]
     let spec :=
       (if poolsBad then ["pool-sizes-missing"] else []) ++
       (if loadBad then ["par-load-eq-seq:" ++ ",".intercalate loadFeat] else []) ++
@@ -276,6 +380,13 @@ def run (inp obs : List String) : Verdict :=
       (if layers.any (fun l => l.files.any (fun f => f.file.attr ≠ f.file.key)) then ["attr-differs"] else []) ++
       (if shared then ["shared-bases"] else []) ++
       (if layers.length ≥ 2 then ["multi-layer"] else []) ++
+      (if layers.length ≥ 5 then ["layers-ge5"] else []) ++
+      (if (layers.head?.map (·.dir)) ≠ some defaultDir then ["default-not-first"] else []) ++
+      (if (inp.any (·.startsWith "O:")) then ["history"] else []) ++
+      (if (inp.any (fun t => t.startsWith "O:" && ((t.splitOn "eo.").length > 1))) then ["entry-op"] else []) ++
+      (if layers.any (fun l => l.files.any (fun f => f.file.key = collA || f.file.comps.contains collA)) &&
+          layers.any (fun l => l.files.any (fun f => f.file.key = collB || f.file.comps.contains collB))
+        then ["hash-colliding-pair"] else []) ++
       (if loadBad then ["par-load-differs"] else []) ++ (if saveBad then ["par-save-differs"] else []) ++
       (if nfiles ≥ 2 && shared then ["nt"] else [])
     let agree := seqAgree.1 && selfLoad && selfSave && !loadBad && (!saveBad || dupFile)
